@@ -477,12 +477,104 @@ def scn_comm(T, case):
             restore[0].os, restore[0].selectors = restore[1], restore[2]
 
 
+# ------------------------------------------------------------------------------------ child side: _PluginOptimizer.run
+def cases_child_run(tier):
+    for outcome in ("finishes", "aborted", "fails"):
+        yield "wrapped-optimizer-%s" % outcome, {"outcome": outcome}
+
+
+def scn_child_run(T, case):
+    """The child's main routine against an abstract communicator / plug-in manager: it asks the parent for the configuration and
+    then for the starting vector, creates the optimizer named after the first slash of the method with the validated
+    configuration and its own forwarding callback, and starts it from EXACTLY the vector the parent answered (which need not be
+    the configured initial values); an abort ends it with status 0, any other exception is reported to the parent and gives 1."""
+    from ropt.exceptions import OptimizationAborted
+
+    log = []
+    start_vector = [1.5, 0.75, -1.0]
+    answers = {"config": {"optimizer": {"method": "external/scipy/slsqp"}, "variables": {"initial_values": [0.0, 0.0, 0.0]}},
+               "initial_values": start_vector}
+
+    class Comm:
+        def __init__(self, a, b):
+            log.append(("open", a, b))
+
+        def __enter__(self):
+            return self
+
+        def __exit__(self, *a):
+            log.append(("close",))
+
+        def write(self, data):
+            log.append(("write", data))
+            self.last = data
+            return True
+
+        def read(self):
+            if isinstance(self.last, dict) and "error" in self.last:
+                return "abort"
+            return answers[self.last]
+
+    class Wrapped:
+        def __init__(self, config, callback):
+            log.append(("create", config, callback))
+
+        def start(self, x):
+            log.append(("start", x))
+            if case["outcome"] == "aborted":
+                raise OptimizationAborted("abort")
+            if case["outcome"] == "fails":
+                raise UserError("boom")
+
+    class PM:
+        def get_plugin(self, kind, method):
+            log.append(("get_plugin", kind, method))
+            return types.SimpleNamespace(create=lambda config, callback: Wrapped(config, callback))
+
+    validated = types.SimpleNamespace(optimizer=types.SimpleNamespace(method="external/scipy/slsqp"), variables=types.SimpleNamespace(initial_values=np.zeros(3)))
+    stubs = {(MX, "_JSONPipeCommunicator"): Comm, (MX, "PluginManager"): PM, (MX, "os"): types.SimpleNamespace(kill=lambda pid, sig: None),
+             (MX, "EnOptConfig"): types.SimpleNamespace(model_validate=lambda d: log.append(("validate", d)) or validated)}
+    restore = None
+    if T.symbolic:
+        sh = T.shadow([MX], stubs)
+        cls = T.under_contract(sh, MX, "_PluginOptimizer", stubs)
+        T.under_contract(sh, MX, "_PluginOptimizer.run", stubs)
+    else:
+        import ropt.plugins.optimizer.external as real
+
+        restore = (real, {k[1]: getattr(real, k[1]) for k in stubs})
+        for k, v in stubs.items():
+            setattr(real, k[1], v)
+        cls = real._PluginOptimizer
+    try:
+        po = cls(99)
+        rc = po.run("fifo-a", "fifo-b")
+    finally:
+        if restore:
+            for k, v in restore[1].items():
+                setattr(restore[0], k, v)
+    writes = [e[1] for e in log if e[0] == "write"]
+    T.prove("C20.child_run.asks_the_parent_for_the_configuration_and_for_the_starting_vector", "config" in writes and "initial_values" in writes)
+    T.prove("C20.child_run.validates_the_configuration_the_parent_sent", [e[1] for e in log if e[0] == "validate"] == [answers["config"]])
+    T.prove("C20.child_run.wrapped_optimizer_is_the_method_after_the_first_slash", [e[1:] for e in log if e[0] == "get_plugin"] == [("optimizer", "scipy/slsqp")])
+    created = [e for e in log if e[0] == "create"]
+    T.prove("C20.child_run.wrapped_optimizer_gets_the_validated_configuration_and_the_forwarding_callback", len(created) == 1 and created[0][1] is validated and created[0][2] == po._callback)
+    started = [e[1] for e in log if e[0] == "start"]
+    T.prove("C20.child_run.starts_from_exactly_the_vector_the_parent_answered", len(started) == 1 and np.asarray(started[0]).tolist() == start_vector)
+    if case["outcome"] == "fails":
+        T.prove("C20.child_run.failure_is_reported_to_the_parent_and_ends_with_status_one", rc == 1 and [w for w in writes if isinstance(w, dict)] == [{"error": "boom"}])
+    else:
+        T.prove("C20.child_run.normal_end_and_abort_give_status_zero_without_an_error_message", rc == 0 and [w for w in writes if isinstance(w, dict)] == [])
+    T.prove("C20.child_run.communicator_is_closed", log[-1] == ("close",))
+
+
 SCENARIOS = [
     Scenario("start_request_loop", scn_start, cases_start, {"quick": 30, "thorough": 200}),
     Scenario("child_side_forwarding", scn_child, cases_child, {"quick": 2, "thorough": 10}),
     Scenario("wrapper_properties", scn_props, cases_props, {"quick": 1, "thorough": 1}),
     Scenario("native_transport_and_processes", scn_native, cases_native, {"quick": 5, "thorough": 1}),
     Scenario("pipe_communicator_against_abstract_os", scn_comm, cases_comm, {"quick": 1, "thorough": 1}),
+    Scenario("child_side_run", scn_child_run, cases_child_run, {"quick": 1, "thorough": 1}),
 ]
 
 MANIFEST = {
@@ -491,6 +583,6 @@ MANIFEST = {
             "released) and the forwarding fidelity of both sides are checked on every path of the real code against an exhaustively explored abstract process/communicator/OS "
             "environment (bounded to 2 evaluations, one fault per run). 'Never hangs', real two-process schedules and trace equality with the in-process run are NOT decided by "
             "contracts; the last is exercised natively with the real process in the thorough tier only.",
-    "note": "Popen/FIFO/os.kill abstract; liveness and OS scheduling outside the technique (DESIGN section 8); trace equality only bounded native evidence (thorough tier), resting on C18 idempotence and SciPy determinism",
+    "note": "_JSONPipeCommunicator is under contract against an abstract os/selectors (no unbounded blocking primitive, finite timeouts, whole messages, descriptors closed) and _PluginOptimizer.run against an abstract communicator; Popen/FIFO/os.kill abstract; liveness and OS scheduling outside the technique (DESIGN section 8); trace equality only bounded native evidence (thorough tier), resting on C18 idempotence and SciPy determinism",
     "technique": "contract-based verification of the sequential request loop: symbolic-execution engine enumerating all environment choices over the real source with abstract process/communicator contracts; bounded native runs as stand-in",
 }
